@@ -5,6 +5,10 @@
   connection is tied by C01 (sched_refines / stream_determines).
 -/
 import MicroHttp.ConnSpec
+import MicroHttp.Proofs.Feed
+import MicroHttp.Proofs.ReqLine
+import MicroHttp.Proofs.Grammar
+import MicroHttp.Proofs.GrammarInv
 namespace MicroHttp.C02
 open MicroHttp
 variable {RL H : Type}
@@ -35,16 +39,16 @@ theorem reqline_precedence (l : List Byte) :
           else if isUtf8 u = false then .error (.parse (.invalidUri .notUtf8))
           else match Version.tryFrom v with
             | none => .error (.parse .invalidHttpVersion)
-            | some version => .ok ⟨method, u, version⟩ := by
-  sorry
+            | some version => .ok ⟨method, u, version⟩ :=
+  ReqLine.reqline_precedence l
 
 /-- A request line is accepted iff it is `METHOD SP URI SP VERSION` with a supported method, a
     non-empty UTF-8 URI without SP and a supported version — and then the fields are those bytes. -/
 theorem reqline_accept_iff (l : List Byte) (rl : RequestLine) :
     RequestLine.tryFrom l = .ok rl ↔
       (l = rl.method.raw ++ [SP] ++ rl.uri ++ [SP] ++ rl.version.raw ∧
-       rl.uri ≠ [] ∧ SP ∉ rl.uri ∧ isUtf8 rl.uri = true) := by
-  sorry
+       rl.uri ≠ [] ∧ SP ∉ rl.uri ∧ isUtf8 rl.uri = true) :=
+  ReqLine.reqline_accept_iff l rl
 
 /-! ### whole requests -/
 
@@ -55,6 +59,17 @@ def foldHL (P : Params RL H) : H → List (List Byte) → Except ReqErr H
     match P.parseHL h l with
     | .error e => .error e
     | .ok h' => foldHL P h' ls
+
+/-- bridge to the copy of `foldHL` the helper lemmas are stated with -/
+theorem foldHL_eq (P : Params RL H) (h : H) (ls : List (List Byte)) :
+    Grammar.foldHL P h ls = foldHL P h ls := by
+  induction ls generalizing h with
+  | nil => rfl
+  | cons l ls ih =>
+    simp only [foldHL, Grammar.foldHL]
+    cases P.parseHL h l with
+    | error e => rfl
+    | ok h' => exact ih h'
 
 /-- a line as it appears in the grammar: no CR LF inside, and short enough with its CR LF -/
 def LineOK (P : Params RL H) (l : List Byte) : Prop := find CRLF l = none ∧ l.length + 2 ≤ P.B
@@ -77,8 +92,9 @@ theorem grammar_accepted (P : Params RL H) (hP : P.WF) (L : Nat)
     feed P L Abs.fresh (requestBytes rlLine hdrLines body) =
       ((if P.expect h = true ∧ 0 < P.clen h then [Out.cont (P.contOf rl)] else []) ++
         [Out.deliver ⟨rl, h, if P.clen h = 0 then none else some body, []⟩],
-       .ok Abs.fresh) := by
-  sorry
+       .ok Abs.fresh) :=
+  Grammar.grammar_accepted P hP L rlLine hdrLines body rl h hrl hrlOK hlines
+    ((foldHL_eq P _ _).trans hfold) hL hbody
 
 /-- "Only if": whenever the automaton, started fresh, delivers exactly one request from `bs` and
     ends ready for the next request with nothing left over, `bs` is a request of the grammar and
@@ -93,7 +109,9 @@ theorem delivered_is_grammar (P : Params RL H) (hP : P.WF) (L : Nat) (bs : List 
       foldHL P P.h0 hdrLines = .ok r.headers ∧
       P.clen r.headers ≤ L ∧ body.length = P.clen r.headers ∧
       r.body = (if P.clen r.headers = 0 then none else some body) ∧ r.files = [] := by
-  sorry
+  obtain ⟨rlLine, hdrLines, body, h1, h2, h3, h4, h5, h6⟩ :=
+    Grammar.delivered_is_grammar P hP L bs outs r hf hd
+  exact ⟨rlLine, hdrLines, body, h1, h2, h3, h4, (foldHL_eq P _ _).symm.trans h5, h6⟩
 
 /-- Requests that precede the first offending element are all delivered, and the error is the
     one the offending remainder produces on its own: a stream consisting of complete grammar
@@ -102,16 +120,18 @@ theorem delivered_is_grammar (P : Params RL H) (hP : P.WF) (L : Nat) (bs : List 
 theorem prefix_requests_delivered (P : Params RL H) (L : Nat) (good rest : List Byte)
     (outs : List (Out RL H)) (hgood : feed P L Abs.fresh good = (outs, .ok Abs.fresh)) :
     feed P L Abs.fresh (good ++ rest) =
-      (outs ++ (feed P L Abs.fresh rest).1, (feed P L Abs.fresh rest).2) := by
-  sorry
+      (outs ++ (feed P L Abs.fresh rest).1, (feed P L Abs.fresh rest).2) :=
+  feed_append_ok P L Abs.fresh Abs.fresh good rest outs hgood
 
 /-- Errors inside the header block: the first fatal header line (in stream order) decides. -/
 theorem first_bad_header_decides (P : Params RL H) (hP : P.WF) (L : Nat) (r : Req RL H)
     (good : List (List Byte)) (bad rest : List Byte) (h' : H) (e : ReqErr)
     (hgood : ∀ l ∈ good, l ≠ [] ∧ LineOK P l) (hfold : foldHL P r.headers good = .ok h')
     (hbadOK : bad ≠ [] ∧ LineOK P bad) (hbad : P.parseHL h' bad = .error e) :
-    feed P L ⟨.hdrs r, []⟩ ((good.map (· ++ CRLF)).flatten ++ bad ++ CRLF ++ rest) = ([], .error e) := by
-  sorry
+    feed P L ⟨.hdrs r, []⟩ ((good.map (· ++ CRLF)).flatten ++ bad ++ CRLF ++ rest) = ([], .error e) :=
+  have _ := hP
+  Grammar.first_bad_header_decides P L r good bad rest h' e hgood
+    ((foldHL_eq P _ _).trans hfold) hbadOK hbad
 
 example : RequestLine.tryFrom [0x47, 0x45, 0x54, 0x20, 0x2F, 0x20, 0x48, 0x54, 0x54, 0x50, 0x2F, 0x31, 0x2E, 0x31]
     = .ok ⟨.get, [0x2F], .http11⟩ := by rfl
